@@ -118,6 +118,8 @@ def run(ctx, report):
         report.guard("C04.FANOUT", F.check_family, ctx, report, "C04.FANOUT", facts, config, (F.RUN,))
         report.guard("C04.FANOUT", F.carrier_inventory, ctx, report, "C04.FANOUT", facts, config)
         report.guard("C04.FANOUT", batch_run, ctx, report, facts, config)
+        from . import c07
+        report.guard("C04.BATCH", c07.assembly, ctx, report, facts, config, "C04.BATCH")
         report.guard("C04.INSERT", S.slot, ctx, report, "C04.INSERT", facts, config)
         report.guard("C04.LOCKSTEP", S.lockstep, ctx, report, "C04.LOCKSTEP", facts, config)
         report.guard("C04.BUILD", S.build_wiring, ctx, report, "C04.BUILD", facts, config)
